@@ -111,8 +111,9 @@ class World:
     def __init__(self, ch, ctx, cfg, monitors=(), *, profile=None, dealer=None, run_key='k',
                  autos_mask=None, muck_num=1, runout_prefs=(None, 1, 2, 2, 3), partial_show=True,
                  explicit_index_num=1, commentary_num=0, adopt=None, free_showdown_num=1, force_show=False,
-                 commentary_fn=None, reuse_game=None):
+                 commentary_fn=None, reuse_game=None, chatter_num=0):
         self.ch = ch
+        self.chatter_num = chatter_num    # n/24 of the steps are preceded by a no-operation (a note in the log, legal at any time)
         self.ctx = ctx
         self.cfg = cfg
         self.monitors = list(monitors)
@@ -313,6 +314,9 @@ class World:
         ph = self.enabled_phase()
         if ph is None:
             return None
+        if self.chatter_num and ch.chance('chatter', self.chatter_num, 24):
+            self.apply('no_operate')
+            self.ctx.fault('note_interleaved')
         if ph == 'ante':
             i = self.maybe_index('ante', s.ante_poster_indices)
             self.apply('post_ante', *(() if i is None else (i,)))
